@@ -57,9 +57,12 @@ let tally line = let (chk, ops) = parse_tally line in res_info (run chk ops)
 
 let tally_check line =
   let (c, i) = split_sb line in
-  let (_, ops) = parse_tally c in
+  let (chk, ops) = parse_tally c in
   match parse_res_info i with
-  | Some r -> verdict (tally_sb ops r) (why (tally_sb_why ops r))
+  | Some r ->
+    if not (tally_sb ops r) then verdict false (why (tally_sb_why ops r))
+    else if chk then "true"
+    else verdict (release_sb ops r) ("release-mod-2^64:" ^ why (release_sb_why ops r))
   | None -> verdict false ("outcome:" ^ i)
 
 (* mode threads: "<D|R> | toks of thread 0 | toks of thread 1 ..." *)
@@ -141,14 +144,14 @@ let prof line =
   let script = Array.of_list (List.map snd rs) in
   (* the wrapped allocator: answers the k-th request it receives with the k-th scripted value *)
   let inner (hist : req list) : resp = script.(List.length hist - 1) in
-  match run_prof inner chk (Some info_init) [] (List.map fst rs) with
-  | Ok ((log, rets), slot) ->
-    let tally = (match slot with Some i -> string_of_info i | None -> "none") in
-    let scripted = List.length (List.filter (fun r -> r <> RespUnit) (Array.to_list script)) in
-    let answered = List.length (List.filter (fun r -> r <> RespUnit) rets) in
-    "log=" ^ list_s string_of_req log ^ " ret=" ^ list_s string_of_resp rets
-    ^ " unused=" ^ string_of_int (scripted - answered) ^ " tally=" ^ tally
-  | Panic p -> "panic " ^ string_of_panic p
+  let ((log, rets), out) = run_prof_trace inner chk (Some info_init) [] (List.map fst rs) in
+  let scripted = List.length (List.filter (fun r -> r <> RespUnit) (Array.to_list script)) in
+  let answered = List.length (List.filter (fun r -> r <> RespUnit) rets) in
+  let body = "log=" ^ list_s string_of_req log ^ " ret=" ^ list_s string_of_resp rets
+             ^ " unused=" ^ string_of_int (scripted - answered) in
+  match out with
+  | Ok slot -> body ^ " tally=" ^ (match slot with Some i -> string_of_info i | None -> "none")
+  | Panic p -> "panic " ^ string_of_panic p ^ " " ^ body
 
 let field name s =
   let pre = name ^ "=" in
@@ -166,8 +169,20 @@ let prof_check line =
   let (_, rs) = parse_prof c in
   let reqs = List.map fst rs and script = List.map snd rs in
   let ops = List.map op_of_req reqs in
+  let rec take k l = if k <= 0 then [] else match l with [] -> [] | x :: r -> x :: take (k - 1) r in
   match toks i with
-  | "panic" :: _ -> verdict (not (no_overflow ops)) "panic-inside-the-no-overflow-guard"
+  | ["panic"; _; l; r; _] ->
+    (* debug tally overflow: what was forwarded before must be a proper prefix of the requests *)
+    (try
+      if no_overflow ops then verdict false "panic-inside-the-no-overflow-guard" else
+      let log = List.map logged_req_of_tok (split_commas (field "log" l)) in
+      let rets = List.map (fun s -> if s = "-" then RespUnit else RespPtr (n_of_string s)) (split_commas (field "ret" r)) in
+      let k = List.length log in
+      if k >= List.length reqs then verdict false "forwarded-a-request-whose-tally-panicked"
+      else verdict (prof_sb (take k reqs) (take k script) log rets)
+             ("before-panic:" ^ prof_why (prof_sb_why (take k reqs) (take k script) log rets))
+    with Failure m -> verdict false ("outcome:" ^ i))
+  | "panic" :: _ -> verdict false ("outcome:" ^ i)
   | l :: r :: u :: t ->
     (try
       let log = List.map logged_req_of_tok (split_commas (field "log" l)) in
